@@ -62,8 +62,26 @@ def exprs(n):
     elif t == "subselect": yield from exprs(n[1]["where"])
 
 
+def has_slice(n):
+    """a sub-select with LIMIT/OFFSET picks rows by ORDER BY, which looks at the terms: not invariant under a renaming"""
+    t = n[0]
+    if t == "subselect": return n[1].get("limit") is not None or n[1].get("offset") is not None or has_slice(n[1]["where"])
+    if t == "group": return any(has_slice(e) for e in n[1])
+    if t in ("optional", "minus"): return has_slice(n[1])
+    if t == "union": return has_slice(n[1]) or has_slice(n[2])
+    if t == "graph": return has_slice(n[2])
+    if t in ("filter", "bind"):
+        def fe(e):
+            if not isinstance(e, list) or not e: return False
+            if e[0] in ("exists", "notexists"): return has_slice(e[1])
+            return any(fe(x) for x in e[1:] if isinstance(x, list))
+        return fe(n[1])
+    return False
+
+
 def group_mode(where):
     """'literal': literals and IRIs may be permuted; 'iri': IRIs only; None: not judged"""
+    if has_slice(where): return None
     es = list(exprs(where))
     if all(literal_generic(e, c) for e, c in es): return "literal"
     if all(iri_generic(e) for e, _ in es): return "iri"
